@@ -201,3 +201,77 @@ func statusNamesAsDeclared(r *core.Run) {
 		r.Fatal("R-PROV/statusname: no loop over Entity.Status found in %s", walkRel)
 	}
 }
+
+// noSharedMessages (R-SYM/S9w): the entity expansion builds schema messages per
+// entity and fills some of them in afterwards (`….Filtering.DefaultFilters =
+// filters`). A generated message is a pointer: one that lives in a
+// package-level variable and is put into the schemas of every entity is the
+// same message in all of them, and a later write for one entity shows up in
+// the others — and in everything compiled afterwards in the same process.
+func noSharedMessages(r *core.Run) {
+	r.Rule("R-SYM/S9w", "in sourcewalk no package-level variable whose type is a pointer to a generated protobuf message is used as the value of a field (in a composite literal or an assignment) or as a call argument: every schema message the walker hands out is built for the node it belongs to")
+	pk := r.P.Pkg(walkRel)
+	if pk == nil {
+		r.Fatal("anchor: package %s not found", walkRel)
+		return
+	}
+	info := pk.TypesInfo
+	isSharedMsg := func(e ast.Expr) (string, bool) {
+		id, ok := core.Unparen(e).(*ast.Ident)
+		if !ok {
+			return "", false
+		}
+		v, ok := info.Uses[id].(*types.Var)
+		if !ok || v.Parent() != pk.Types.Scope() {
+			return "", false
+		}
+		p, ok := v.Type().(*types.Pointer)
+		if !ok {
+			return "", false
+		}
+		nt := core.NamedOf(p.Elem())
+		if nt == nil || nt.Obj().Pkg() == nil || !core.IsGen(nt.Obj().Pkg().Path()) {
+			return "", false
+		}
+		return v.Name(), true
+	}
+	n, vars := 0, 0
+	for _, nm := range pk.Types.Scope().Names() {
+		if v, ok := pk.Types.Scope().Lookup(nm).(*types.Var); ok {
+			if p, ok := v.Type().(*types.Pointer); ok {
+				if nt := core.NamedOf(p.Elem()); nt != nil && nt.Obj().Pkg() != nil && core.IsGen(nt.Obj().Pkg().Path()) {
+					vars++
+				}
+			}
+		}
+	}
+	core.AllFuncDecls(pk, func(fd *ast.FuncDecl) {
+		if fd.Body == nil {
+			return
+		}
+		ast.Inspect(fd.Body, func(m ast.Node) bool {
+			var vals []ast.Expr
+			switch x := m.(type) {
+			case *ast.KeyValueExpr:
+				vals = append(vals, x.Value)
+			case *ast.AssignStmt:
+				vals = append(vals, x.Rhs...)
+			case *ast.CallExpr:
+				vals = append(vals, x.Args...)
+			}
+			for _, v := range vals {
+				if name, ok := isSharedMsg(v); ok {
+					n++
+					r.Add("R-SYM/S9w", walkRel+"."+core.FuncName(fd)+" | shared "+name, v.Pos(), "package-level message "+name+" placed into a generated schema").Fail("%s is one message for the whole process: every schema it is put into shares it, and a field filled in for one entity (a default status filter) appears on the others and on everything compiled later", name)
+				}
+			}
+			return true
+		})
+	})
+	o := r.Add("R-SYM/S9w", walkRel+" | package-level messages", token.NoPos, "package-level variables of generated message types")
+	if n == 0 {
+		o.Auto("%d such variables, none placed into a schema", vars)
+	} else {
+		o.Fail("%d uses of package-level messages in generated schemas", n)
+	}
+}
